@@ -557,19 +557,25 @@ def run_histories(ctx: fw.Ctx, env: Env, n_hist: int, D: dict[str, list[fw.Case]
     r = ctx.rng
     for hi in range(n_hist + len(corpus)):
         if hi < len(corpus):
-            run_history(ctx, env, D, corpus[hi]['decls'], corpus[hi]['uids'], corpus[hi]['script'], r, f'corpus:{corpus[hi]["name"]}')
+            c = corpus[hi]
+            run_history(ctx, env, D, {'decls': c['decls'], 'uids': c['uids'], 'init': c.get('init'), 'pending0': c.get('pending0', []),
+                                      'actions': c['script']}, r, f'corpus:{c["name"]}')
         else:
             decls = gen_decls(r)
             uids = [f'uid-{hi}-{j}' for j in range(r.choice([1, 1, 2, 3]))]
-            run_history(ctx, env, D, decls, uids, None, r, f'gen:{hi}')
+            run_history(ctx, env, D, {'decls': decls, 'uids': uids, 'init': None, 'pending0': None, 'actions': None}, r, f'gen:{hi}')
 
 
-def run_history(ctx: fw.Ctx, env: Env, D: dict[str, list[fw.Case]], decls: list[dict], uids: list[str], script: list[dict] | None,
-                r: Any, name: str) -> None:
+def run_history(ctx: fw.Ctx, env: Env, D: dict[str, list[fw.Case]], spec: dict, r: Any, name: str) -> None:
+    """spec = {decls, uids, init: server-side objects or None, pending0: events in flight at the start or None,
+    actions: the environment's actions or None (generated, and recorded so that a failing history can be replayed)}."""
+    decls, uids, script = spec['decls'], spec['uids'], spec['actions']
     R = Registry(env, decls)
     W = World(env, R, uids, r)
     env.world = W
-    if script is not None:
+    if spec.get('init') is not None:
+        W.objs = copy.deepcopy(spec['init'])
+    elif script is not None:
         for uid in uids:
             W.objs[uid]['metadata']['labels'] = {'sel': 'on'}       # type: ignore[index]
             W.objs[uid]['metadata'].pop('finalizers', None)         # type: ignore[index]
@@ -579,12 +585,15 @@ def run_history(ctx: fw.Ctx, env: Env, D: dict[str, list[fw.Case]], decls: list[
         needs_fin = any(d['kind'] == 'delete' for d in decls)
         for uid in uids:
             ctx.count('start_state', W.seed(uid, r, needs_fin))
+    init = copy.deepcopy(W.objs)
     loop = vloop.new_loop()
     memories = env.inventory.ResourceMemories()
     epoch = 0
-    pending: list[tuple[Any, str]] = [(None if r.random() < 0.75 else 'ADDED', u) for u in uids]
-    if script is not None:
-        pending = []
+    if spec.get('pending0') is not None:
+        pending: list[tuple[Any, str]] = [(p[0], p[1]) for p in spec['pending0']]
+    else:
+        pending = [(None if r.random() < 0.75 else 'ADDED', u) for u in uids]
+    replayable = {'decls': decls, 'uids': uids, 'init': init, 'pending0': [list(p) for p in pending], 'actions': []}
     labels: list[str] = []          # Coq labels of the whole history
     trace_obs: list[str] = []
     trace_data: list[dict] = []
@@ -604,17 +613,21 @@ def run_history(ctx: fw.Ctx, env: Env, D: dict[str, list[fw.Case]], decls: list[
             while si < steps:
                 # ---- environment action (when no event is pending)
                 if script is not None:
-                    act = script[si]
-                    si += 1
-                    kind = act['a']
+                    act = dict(script[si])
+                elif not pending:
+                    act = {'a': r.choice(['edit', 'edit', 'status', 'label', 'label', 'relist', 'relist', 'relist', 'restart', 'restart',
+                                          'delete', 'sleep', 'sleep', 'sleep', 'unfinalize', 'stale']), 'uid': r.choice(uids)}
+                    if act['a'] == 'edit':
+                        act['x'] = r.choice([1, 2, 3, 'v'])
+                    elif act['a'] == 'sleep':
+                        act['dt'] = r.choice([TMP_DELAY, TMP_DELAY, 3, 25])
+                    elif act['a'] == 'stale':
+                        act['type'] = r.choice([None, 'ADDED', 'MODIFIED'])
                 else:
-                    if not pending:
-                        kind = r.choice(['edit', 'edit', 'status', 'label', 'label', 'relist', 'relist', 'relist', 'restart', 'restart',
-                                         'delete', 'sleep', 'sleep', 'sleep', 'unfinalize', 'stale'])
-                        act = {'a': kind, 'uid': r.choice(uids)}
-                    else:
-                        kind, act = 'deliver', {}
-                    si += 1
+                    act = {'a': 'deliver'}
+                si += 1
+                kind = act['a']
+                replayable['actions'].append(act)
                 live = [u for u in uids if W.objs[u] is not None]
                 if kind == 'restart':
                     memories = env.inventory.ResourceMemories()
@@ -634,7 +647,7 @@ def run_history(ctx: fw.Ctx, env: Env, D: dict[str, list[fw.Case]], decls: list[
                     ctx.count('fn_env_action', 'relist')
                     kind = 'deliver'
                 elif kind == 'sleep':
-                    loop.advance_by(act.get('dt', r.choice([TMP_DELAY, TMP_DELAY, 3, 25]) if script is None else TMP_DELAY))
+                    loop.advance_by(act.get('dt', TMP_DELAY))
                     loop.settle()
                     ctx.count('fn_env_action', 'sleep')
                     pending.append(('MODIFIED', act['uid'])) if W.objs[act['uid']] is not None else None
@@ -650,11 +663,11 @@ def run_history(ctx: fw.Ctx, env: Env, D: dict[str, list[fw.Case]], decls: list[
                             unreal.add(uid)
                             W.objs[uid] = copy.deepcopy(W.ghost[uid])
                             W.objs[uid]['metadata'].pop('deletionTimestamp', None)      # type: ignore[index]
-                            pending.append((r.choice([None, 'ADDED', 'MODIFIED']), uid))
+                            pending.append((act.get('type'), uid))
                     elif obj is not None:
                         md = obj['metadata']
                         if kind == 'edit':
-                            obj['spec']['x'] = act.get('x', r.choice([1, 2, 3, 'v']))
+                            obj['spec']['x'] = act.get('x', 'edited')
                         elif kind == 'label':
                             md.setdefault('labels', {})['sel'] = act.get('sel', 'off' if md.get('labels', {}).get('sel') == 'on' else 'on')
                         elif kind == 'status':
@@ -762,7 +775,8 @@ def run_history(ctx: fw.Ctx, env: Env, D: dict[str, list[fw.Case]], decls: list[
                     unreal.add(uid)
                 if uid in unreal:
                     continue
-                case = {'history': name, 'registry': decls, 'uids': uids, 'trace': copy.deepcopy(trace_data), 'epoch': epoch, 'uid': uid}
+                case = {'history': name, 'registry': decls, 'uids': uids, 'trace': copy.deepcopy(trace_data), 'epoch': epoch, 'uid': uid,
+                        'replay': copy.deepcopy(replayable)}
                 if det['initial0'] and key in initial_false:
                     ctx.fail('the first-sight flag of an object came back within one operator process', case, sig='initial-again')
                 if not det['initial0']:
@@ -864,6 +878,31 @@ def load_corpus() -> list[dict]:
         for f in sorted(d.glob('fn_*.json')):
             out.append(json.loads(f.read_text()))
     return out
+
+
+def replay(ctx: fw.Ctx, body: dict) -> bool:
+    """Re-run a function-level replay file: a recorded history (case.replay), or the deterministic tables / key sequences."""
+    case = body.get('case') or {}
+    ctx.matchers.update({'F1401': match_f1401})
+    D: dict[str, list[fw.Case]] = {'resume_step': [], 'resume_trace': []}
+    with Env() as env:
+        if isinstance(case, dict) and 'replay' in case:
+            run_history(ctx, env, D, case['replay'], ctx.rng, str(case.get('history', 'replay')))
+        else:
+            run_keys(ctx, env, ctx.scale(60, 600))
+            run_detect_table(ctx, env)
+            run_select_table(ctx, env, ctx.scale(12, 80))
+    for f in ctx.failures[:10]:
+        print('  still failing:', f['sig'], '-', f['what'])
+    for k in ctx.known_hits:
+        print('  known finding reproduced:', k)
+    sig = body.get('sig')
+    return any(sig is None or f['sig'] == sig for f in ctx.failures) or bool(ctx.known_hits)
+
+
+def is_function_level_replay(body: dict) -> bool:
+    case = body.get('case')
+    return isinstance(case, dict) and 'scenario' not in case and body.get('kind') == 'failing-input'
 
 
 def differential(ctx: fw.Ctx) -> None:
